@@ -49,6 +49,7 @@ THEOREMS = [
     'Nb.C17.buffer_roundtrip',
     'Nb.C17.order_roundtrip',
     'Nb.C17.data_block_roundtrip',
+    'Nb.C17.data_block_roundtrip_gifti',
     'Nb.C17.codes_pinned',
 ]
 ASSUMPTIONS = [
